@@ -167,11 +167,10 @@ func (p *HTTPProxy) ServeHTTP(w http.ResponseWriter, r *http.Request) {
 
 	if t.StripPath != "" && strings.HasPrefix(r.URL.Path, t.StripPath) {
 		targetURL.Path = targetURL.Path[len(t.StripPath):]
-		if strings.HasPrefix(rawPath, t.StripPath) {
-			rawPath = rawPath[len(t.StripPath):]
-		} else {
-			rawPath = ""
-		}
+		// the client may have escaped characters of the prefix, e.g. '~' as
+		// %7E: cut off as much of the encoded path as decodes to the prefix
+		// so that the encoding of the rest is kept.
+		rawPath = rawPath[encodedLen(rawPath, len(t.StripPath)):]
 		// ensure absolute path after stripping to maintain compliance with
 		// section 5.3 of RFC7230 (https://tools.ietf.org/html/rfc7230#section-5.3)
 		if !strings.HasPrefix(targetURL.Path, "/") {
@@ -190,7 +189,10 @@ func (p *HTTPProxy) ServeHTTP(w http.ResponseWriter, r *http.Request) {
 	if t.PrependPath != "" {
 		targetURL.Path = t.PrependPath + targetURL.Path
 		if rawPath != "" {
-			rawPath = t.PrependPath + rawPath
+			// the option is plain text like the path: it is escaped in the
+			// encoded path. Otherwise a character which has to be escaped
+			// makes the encoded path unusable as a whole.
+			rawPath = (&url.URL{Path: t.PrependPath}).EscapedPath() + rawPath
 		}
 		// ensure absolute path after stripping to maintain compliance with
 		// section 5.3 of RFC7230 (https://tools.ietf.org/html/rfc7230#section-5.3)
@@ -299,6 +301,24 @@ func (p *HTTPProxy) ServeHTTP(w http.ResponseWriter, r *http.Request) {
 			UpstreamURL:     targetURL,
 		})
 	}
+}
+
+// encodedLen returns the length of the prefix of the percent-encoded path
+// raw which decodes to the first n bytes of the path. Every escape sequence
+// stands for one byte.
+func encodedLen(raw string, n int) int {
+	i := 0
+	for ; n > 0 && i < len(raw); n-- {
+		if raw[i] == '%' {
+			i += 3
+		} else {
+			i++
+		}
+	}
+	if i > len(raw) {
+		i = len(raw)
+	}
+	return i
 }
 
 func key(code int) string {
